@@ -147,6 +147,10 @@ const (
 	c13ModeN            // toggle n
 	c13ModeK            // +k key / -k key
 	c13ModeL            // +l 5 / -l
+	// multi-letter mode strings: X = c13ModePair + w toggles o on U and v on user w in ONE line ("+o-v a b");
+	// X = c13ModeLimOp + w toggles the limit and o on user w ("+lo 5 b" / "-l+o b")
+	c13ModePair  = 8
+	c13ModeLimOp = 16
 )
 
 type c13Ev struct{ Kind, U, C, X uint8 }
@@ -177,8 +181,14 @@ func (e c13Ev) String() string {
 			return "n toggle on " + c
 		case c13ModeK:
 			return "key toggle on " + c
-		default:
+		case c13ModeL:
 			return "limit toggle on " + c
+		}
+		if e.X >= c13ModeLimOp {
+			return fmt.Sprintf("limit toggle and op toggle for %s on %s in one MODE", []string{"me", "A", "B"}[e.X-c13ModeLimOp], c)
+		}
+		if e.X >= c13ModePair {
+			return fmt.Sprintf("op toggle for %s and voice toggle for %s on %s in one MODE", u, []string{"me", "A", "B"}[e.X-c13ModePair], c)
 		}
 	}
 	return "?"
@@ -221,6 +231,16 @@ func (n *ircNet) Events() []c13Ev {
 			}
 		}
 		evs = append(evs, c13Ev{evMode, 0, uint8(c), c13ModeN}, c13Ev{evMode, 0, uint8(c), c13ModeK}, c13Ev{evMode, 0, uint8(c), c13ModeL})
+		for u := 0; u < c13NUsers; u++ {
+			for w := 0; w < c13NUsers; w++ {
+				if u != w && ch.On&(1<<u) != 0 && ch.On&(1<<w) != 0 {
+					evs = append(evs, c13Ev{evMode, uint8(u), uint8(c), uint8(c13ModePair + w)})
+				}
+			}
+			if ch.On&(1<<u) != 0 {
+				evs = append(evs, c13Ev{evMode, 0, uint8(c), uint8(c13ModeLimOp + u)})
+			}
+		}
 	}
 	return evs
 }
@@ -386,6 +406,32 @@ func (n *ircNet) Apply(e c13Ev) []string {
 			}
 			if seen {
 				ch.RLimit = ch.Limit
+			}
+		default:
+			if e.X >= c13ModeLimOp {
+				w := int(e.X - c13ModeLimOp)
+				wbit := uint8(1) << w
+				ch.Limit = !ch.Limit
+				ch.Op ^= wbit
+				if ch.Limit {
+					change = fmt.Sprintf("+l%so %d %s", sign(ch.Op&wbit != 0), c13Limit, n.Nick(w))
+				} else {
+					change = fmt.Sprintf("-l%so %s", sign(ch.Op&wbit != 0), n.Nick(w))
+				}
+				if seen {
+					ch.RLimit = ch.Limit
+					ch.ROp = ch.ROp&^wbit | ch.Op&wbit
+				}
+			} else {
+				w := int(e.X - c13ModePair)
+				wbit := uint8(1) << w
+				ch.Op ^= bit
+				ch.Voice ^= wbit
+				change = fmt.Sprintf("%so%sv %s %s", sign(ch.Op&bit != 0), sign(ch.Voice&wbit != 0), n.Nick(u), n.Nick(w))
+				if seen {
+					ch.ROp = ch.ROp&^bit | ch.Op&bit
+					ch.RVoice = ch.RVoice&^wbit | ch.Voice&wbit
+				}
 			}
 		}
 		if seen {
